@@ -78,6 +78,9 @@ def _desc(draw, kind=None):
             d["required"] = draw(st.lists(st.sampled_from(["Ar", "Mg", "Si", "S", "N", "N2", "Fe", "Na"]), min_size=1, max_size=4, unique=True))
         if kind == "umist-mod":
             d["rate_mod"] = {"1": draw(st.sampled_from(["0.0", "1.0e-9 * nH"]))}
+        if draw(st.integers(0, 2)) == 0:
+            # a user-supplied rate for the *last* reaction of the file
+            d["rate_mod"] = dict(d["rate_mod"], **{str(lrs[-1]["idx"]): draw(st.sampled_from(["0.0", "2.5e-10"]))})
         if kind == "kida" and draw(st.booleans()):
             d["elements"] = ["e", "H", "He", "C", "O"] + sorted({"Ne", "Ar", "Mg", "Si", "S", "N", "Fe", "Na"} & {x.rstrip("2") for x in d["required"]})
             d["pseudo"] = ["CR", "CRP", "Photon"]
@@ -143,7 +146,7 @@ def _case(draw):
     descs = [draw(_desc(k)) for k in kinds]
     ops = []
     for _ in range(draw(st.integers(3, 8))):
-        ops.append([draw(st.sampled_from(["build", "build_edit", "build_keep", "render_kept", "render_cli", "render_cli", "render_api", "render_api", "faulty_krome"])), draw(st.integers(0, nd - 1))])
+        ops.append([draw(st.sampled_from(["build", "build_edit", "build_keep", "render_kept", "render_cli", "render_cli", "render_api", "render_api", "render_grown", "faulty_krome"])), draw(st.integers(0, nd - 1))])
     if not any(o[0].startswith("render") for o in ops):
         ops.append(["render_cli", 0])
     return {"descs": descs, "ops": ops}
@@ -265,6 +268,26 @@ def _do(op, desc, workdir, k, slot=0):
         chemistrydata.user_photon_yield.clear()
         update_binding_energy({Species(kk, **sk).name: v for kk, v in desc["binding"].items()})
         update_photon_yield({Species(kk, **sk).name: v for kk, v in desc["yields"].items()})
+        if op == "render_grown":
+            # the network is built from all but the last data line, rendered, grown with the last line through
+            # add_reaction_from_file, and rendered again: same description, so the same sources as built in one go
+            data = [ln for ln in desc["text"].split("\n") if ln.strip()]  # (KROME, the only format with comment lines, is excluded below)
+            if desc["fmt"] != "krome" and len(data) >= 2:
+                head, tail = desc["text"].rsplit(data[-1], 1)
+                (root / "part1").write_text(head)
+                (root / "part2").write_text(data[-1] + "\n")
+                kw = _network_kwargs(desc, "part1")
+                net = Network(**kw)
+                s, m, dv = desc["backend"]
+                first = Path(workdir) / f"op{k}_first"
+                first.mkdir()
+                TemplateLoader(s, m, dv).render("vtproj", net, path=first)
+                net.add_reaction_from_file(str(root / "part2"), desc["fmt"])
+                (root / "part1").unlink()
+                (root / "part2").unlink()
+                TemplateLoader(s, m, dv).render("vtproj", net, path=root)
+                return _digest(root)
+            op = "render_api"
         net = Network(**_network_kwargs(desc, fname))
         if op == "build":
             _ = net.species
@@ -339,7 +362,7 @@ def check_case(case, tier):
     seen_ops = []
     for k, ((op, i), dg) in enumerate(zip(ops, got)):
         if op.startswith("render"):
-            ref = alone(descs[i], "render_api" if op == "render_kept" else op, 0)
+            ref = alone(descs[i], "render_api" if op in ("render_kept", "render_grown") else op, 0)
             prev_other = [(o, j) for o, j in seen_ops if j != i and differs(descs[i], descs[j])]
             if prev_other:
                 nontrivial = True
@@ -365,7 +388,7 @@ def check_case(case, tier):
         seen_ops.append((op, i))
     # hash-seed independence of the alone rendering
     for i, d in enumerate(descs):
-        for route in sorted({("render_api" if op == "render_kept" else op) for op, j in ops if j == i and op.startswith("render")}):
+        for route in sorted({("render_api" if op in ("render_kept", "render_grown") else op) for op, j in ops if j == i and op.startswith("render")}):
             base = alone(d, route, 0)
             if str(base).startswith(("raised", "status")):
                 continue
